@@ -383,6 +383,9 @@ class Arnoldi(KrylovBased):
         Returns the number of steps performed.
         """
         h = self._h_krylov
+        # start from a clean state: `_to_cache` does not pop old entries of a previous run()
+        self._cache = []
+        h[:] = 0.0
         w = self.psi0  # initialize
         norm = npc.norm(w)
         for k in range(self.N_max):
@@ -658,6 +661,9 @@ class LanczosGroundState(KrylovBased):
         Returns the number of steps performed.
         """
         h = self._h_krylov
+        # a previous run() may have left Krylov vectors in the cache (rebuild path of _calc_result_full);
+        # with `reortho` the new run would be orthogonalized against them
+        self._cache = []
         w = self.psi0  # initialize
         beta = npc.norm(w)
         if beta < self._cutoff:
